@@ -18,8 +18,15 @@ Theorem c08_sites_classified : forallb (classified_ok map_range_exceptions) map_
 Proof. exact sites_classified. Qed.
 Print Assumptions c08_sites_classified.
 
+(* the same census over the packages of github.com/nyaruka/gocommon that goflow imports (read from the module cache): every
+   site has an accepted shape, is a reviewed exception, or is a KNOWN finding (three today: urns.unescape, the dates
+   locale matcher, dates.parseError) that goflow cannot repair and the driver's probes report on every run *)
+Theorem c08_dep_sites_classified : forallb (classified_ok dep_map_range_exceptions) dep_map_range_sites = true.
+Proof. exact dep_sites_classified. Qed.
+Print Assumptions c08_dep_sites_classified.
+
 (* every reason used by the exception table stands for a proved statement (see reason_statement) *)
-Theorem c08_exceptions_justified : forall e, In e map_range_exceptions -> reason_statement (x_reason e).
+Theorem c08_exceptions_justified : forall e, In e (map_range_exceptions ++ dep_map_range_exceptions) -> reason_statement (x_reason e).
 Proof. exact exceptions_justified. Qed.
 Print Assumptions c08_exceptions_justified.
 
